@@ -13,7 +13,7 @@ set_option maxRecDepth 100000
 namespace Verif.Props.C18
 open Verif Verif.Model.DataURI Verif.Proofs.DataURI
 open Verif.Spec.Rfc2397 (pctDecode rfcParse mtNorm trigPlus trigParamNoType trigB64Item trigTextPlainPrefix
-  trigDataURI holdsDataURI validlyEncoded)
+  trigDataURI holdsDataURI validlyEncoded specMediatypeOK specMediatype quotesClosed trigQuoteShift trigBackslash)
 
 /-! ## facts about the regenerated tables (re-checked by the kernel whenever the dependency changes) -/
 
@@ -343,6 +343,42 @@ example : NonExpanding (fun _ d => some (d.filter (· ≠ ' '))) := by
     omega
 
 /-! ## (g) the media type helper -/
+
+/-- full statement: "only lowercases and strips whitespace outside quoted strings" — for every media type string
+    whose quoted strings are closed the result is the input with the whitespace outside quoted strings deleted
+    and each letter outside quoted strings kept or lower-cased (relational: runs of 1024 bytes or more may stay as
+    they are); quoted strings, incl. backslash escapes (RFC 2045 `quoted-pair`), are copied -/
+def mediatype_spec_full : Prop :=
+  ∀ b : List Char, quotesClosed b = true → specMediatypeOK 0 b (mediatype b) = true
+
+/-- proved outside the triggers of the two known defects of `common.go` (K-C18-5, K-C18-6) -/
+theorem mediatype_spec_partial (b : List Char) (hc : quotesClosed b = true) (g1 : trigQuoteShift b = false)
+    (g2 : trigBackslash b = false) : specMediatypeOK 0 b (mediatype b) = true :=
+  Verif.Proofs.Mediatype.mediatype_ok b hc g1 g2
+
+/-- bytes inside a quoted string are lower-cased: `a  ;x="AB";y="C"` ↦ `a;x="Ab";y="C"` -/
+theorem mediatype_spec_counterexample_quoteShift : ¬ mediatype_spec_full := fun h =>
+  absurd (h "a  ;x=\"AB\";y=\"C\"".toList (by decide)) (by decide)
+
+/-- a backslash-escaped quote ends the string: `x="a\"B C"` ↦ `x="a\"bc"` -/
+theorem mediatype_spec_counterexample_backslash : ¬ mediatype_spec_full := fun h =>
+  absurd (h "x=\"a\\\"B C\"".toList (by decide)) (by decide)
+
+example : mediatype "a  ;x=\"AB\";y=\"C\"".toList = "a;x=\"Ab\";y=\"C\"".toList ∧
+    trigQuoteShift "a  ;x=\"AB\";y=\"C\"".toList = true ∧ trigBackslash "x=\"a\\\"B C\"".toList = true := by decide
+
+/-- non-vacuity: the suite's own case with a quoted parameter satisfies the hypotheses, and the result is the
+    reference result -/
+example : quotesClosed "text/html; charset=UTF-8 ; param = \" ; \"".toList = true ∧
+    trigQuoteShift "text/html; charset=UTF-8 ; param = \" ; \"".toList = false ∧
+    trigBackslash "text/html; charset=UTF-8 ; param = \" ; \"".toList = false ∧
+    mediatype "text/html; charset=UTF-8 ; param = \" ; \"".toList = "text/html;charset=utf-8;param=\" ; \"".toList ∧
+    specMediatype "text/html; charset=UTF-8 ; param = \" ; \"".toList = "text/html;charset=utf-8;param=\" ; \"".toList := by
+  decide
+
+/-- two strings separated by whitespace are fine -/
+example : trigQuoteShift "a ;x=\"AB\" ;y=\"C\"".toList = false ∧
+    mediatype "A ;x=\"AB\" ;Y=\"C\"".toList = "a;x=\"AB\";y=\"C\"".toList := by decide
 
 /-- never longer than its input -/
 theorem mediatype_len (b : List Char) : (mediatype b).length ≤ b.length :=
